@@ -178,8 +178,32 @@ def same_dynamics(a, b, tol=TOL):
     return True
 
 
-def run_history(api, s, d, ops, at=None, variant=0, base=False):
-    """ops: list of ('c', end_time) | ('g',).  Returns the observable record."""
+PROGRESS_TYPES = ("silent", "simple", "bar")
+
+
+def read_like_a_user(api, dyn):
+    """what a user looks at between two compute calls: every public read of the results"""
+    if dyn is None:
+        return
+    _ = dyn.times
+    if api == "mft":
+        _ = dyn.fields
+        for sd in dyn.system_dynamics:
+            _ = sd.states, sd.times
+            sd.expectations()
+        dyn.field_expectations()
+    else:
+        _ = dyn.states
+        _ = dyn.shape
+        dyn.expectations()
+        len(dyn)
+
+
+def run_history(api, s, d, ops, at=None, variant=0, base=False, progress="silent"):
+    """ops: list of ('c', end_time) | ('g',).  'g' = get_dynamics() and reading its results the
+    way a user does.  Returns the observable record."""
+    import contextlib
+    import io
     probe = Probe(at, base)
     obj = MAKERS[api](s, d, probe, variant)
     oks, internal = "", None
@@ -189,9 +213,11 @@ def run_history(api, s, d, ops, at=None, variant=0, base=False):
             dyn = obj.get_dynamics()
             if dyn is not None:
                 dyn_ids.add(id(dyn))
+            read_like_a_user(api, dyn)
             continue
         try:
-            dyn = obj.compute(o[1], progress_type="silent")
+            with contextlib.redirect_stdout(io.StringIO()):
+                dyn = obj.compute(o[1], progress_type=progress)
             dyn_ids.add(id(dyn))
             oks += "1"
         except FAULTS:
@@ -202,7 +228,8 @@ def run_history(api, s, d, ops, at=None, variant=0, base=False):
     step = obj._backend_instance.step
     return {"oks": oks, "step": step, "calls": len(probe.trace), "trace": list(probe.trace),
             "raw": probe.raw, "fired_inv": probe.fired_inv, "internal": internal,
-            "dyn": dyn_snapshot(api, obj.get_dynamics()), "one_dynamics_object": len(dyn_ids) <= 1}
+            "dyn": dyn_snapshot(api, obj.get_dynamics()), "one_dynamics_object": len(dyn_ids) <= 1,
+            "progress": progress}
 
 
 _REF = {}
@@ -397,7 +424,11 @@ def run_tebd(pre, post, ops):
                 obj.get_current_density_matrix(k % 2)
                 k += 1
             elif o == "r":
-                obj.get_results()
+                got = obj.get_results()
+                _ = got["time"], got["norm"], got["bond_dimensions"]
+                for dyn in got["dynamics"].values():     # read them like a user
+                    _ = dyn.states, dyn.times
+                    dyn.expectations()
             elif o == "m":
                 obj.get_augmented_mps()
             else:
@@ -501,7 +532,9 @@ def correspondence(res, tier, rng):
         seqs = gen_histories(rng, tier)
         if api == "mft" and tier == "quick":
             seqs = [q for i, q in enumerate(seqs) if len(q) != 2 or i % 2 == 0]
-        for i, ms in enumerate(seqs):
+        # forced: the results are read between the calls (tagged sequences come last)
+        forced = [[2, 4], [1, 3, 4], [3, 3], [0, 2]]
+        for i, ms in enumerate(seqs + forced):
             s_l, d_l = GRIDS[i % len(GRIDS)] if len(ms) > 1 else GRIDS[0]
             s, d = float(s_l), float(d_l)
             variant = 1 if (api == "tempo" and i % 5 == 0) else 0
@@ -513,19 +546,24 @@ def correspondence(res, tier, rng):
             ops = []
             for t in targets:
                 ops.append(("c", t))
-                if rng.random() < 0.4:
+                if i >= len(seqs) or rng.random() < 0.4:
                     ops.append(("g",))
-            rec = run_history(api, s, d, ops, None, variant)
+            progress = PROGRESS_TYPES[i % 3]
+            rec = run_history(api, s, d, ops, None, variant, False, progress)
             ref_t = max(targets)
             ref = single_call(api, s, d, ref_t, variant)
             same = same_dynamics(rec["dyn"], ref["dyn"]) and rec["step"] == ref["step"]
             add(hist_line(api, s, d, [], ref_t, targets), hist_expect(rec, same),
                 {"kind": "history", "api": api, "start": s, "dt": d, "target_steps": ms,
-                 "targets": targets, "variant": variant})
+                 "targets": targets, "variant": variant, "progress_type": progress,
+                 "calls": [o[0] for o in ops]})
             if not rec["one_dynamics_object"]:
                 res.disagree("get_dynamics()/compute() returned different Dynamics objects",
                              {"api": api, "targets": targets})
             res.count("hist:%s:len%d" % (api, min(len(ms), 4)))
+            res.count("progress_type:" + progress)
+            if ("g",) in ops[:-1]:
+                res.count("hist:%s:results-read-between-calls" % api)
 
     # (b) a transient fault at every raw call index of the user callables
     for api in ("tempo", "mft"):
@@ -552,7 +590,8 @@ def correspondence(res, tier, rng):
                     ops = [("c", target), ("g",), ("c", target), ("c", target)]
                 else:                                  # failing call with a nearer target first
                     ops = [("c", dec_sum(s_l, d_l, max(1, m - 1))), ("c", target), ("c", target)]
-                rec = run_history(api, s, d, ops, r, variant, base)
+                progress = PROGRESS_TYPES[(r // 3 + (1 if base else 0)) % 3]
+                rec = run_history(api, s, d, ops, r, variant, base, progress)
                 if rec["fired_inv"] is None:
                     continue
                 if rec["internal"] is not None:
@@ -567,7 +606,9 @@ def correspondence(res, tier, rng):
                               target, targets),
                     hist_expect(rec, same),
                     {"kind": "fault", "api": api, "start": s, "dt": d, "ops": ops,
-                     "raw_index": r, "variant": variant, "base_exception": base})
+                     "raw_index": r, "variant": variant, "base_exception": base,
+                     "progress_type": progress})
+                res.count("fault:progress_type:" + progress)
                 res.count("fault:%s:callable%d:%s%s" % (api, rec["trace"][rec["fired_inv"]][0],
                                                         "BaseException" if base else "Exception",
                                                         REGIME.get(variant, "")))
@@ -687,21 +728,38 @@ def oracle_retry(res, api, s_l, d_l, m, variant, indices=None, base=False):
     found = 0
     # late steps first: beyond the memory cut-off the damage is silent
     for r in (indices if indices is not None else reversed(range(ref["raw"]))):
-        rec = run_history(api, s, d, [("c", target), ("c", target)], r, variant, base)
-        if rec["fired_inv"] is None or rec["oks"][:1] != "0":
+        progress = PROGRESS_TYPES[r % 3]
+        rec = run_history(api, s, d, [("c", target), ("c", target)], r, variant, base, progress)
+        if rec["fired_inv"] is None:
+            continue
+        name = {"tempo": "Tempo", "mft": "MeanFieldTempo"}[api]
+        if rec["oks"][:1] == "1":
+            # the user callable raised inside compute(), but compute() returned normally
+            res.fail("fault-swallowed:%s:%s" % (name, progress),
+                     {"api": name, "start_time": s, "dt": d, "end_time": target, "variant": variant,
+                      "progress_type": progress, "raw_user_call_index_that_raises_once": r,
+                      "base_exception": base,
+                      "times_returned_by_the_failed_call": rec["dyn"]["times"],
+                      "times_without_failure": ref["dyn"]["times"],
+                      "how": "%s.compute(%r, progress_type=%r) with a user callable raising at "
+                             "its %d-th call: the exception must propagate out of compute(), "
+                             "instead compute() returns" % (name, target, progress, r)})
+            found += 1
+            continue
+        if rec["oks"][:1] != "0":
             continue
         cid = rec["trace"][rec["fired_inv"]][0]
         if rec["oks"][1:] == "0":
             continue                                   # failed again: allowed
         ok = rec["oks"][1:] == "1" and same_dynamics(rec["dyn"], ref["dyn"])
         if not ok:
-            name = {"tempo": "Tempo", "mft": "MeanFieldTempo"}[api]
             what = {("tempo", 0): "system-propagators",
                     ("mft", 0): "field_eom-derivative", ("mft", 1): "system-propagators",
                     ("mft", 2): "field_eom-after-network-update"}[(api, cid)]
             res.fail("retry:%s:%s%s%s" % (name, what, ":BaseException" if base else "",
                                           REGIME.get(variant, "")),
                      {"api": name, "start_time": s, "dt": d, "end_time": target, "variant": variant,
+                      "progress_type": progress,
                       "raised_class": "a BaseException subclass that is not an Exception "
                                       "(like KeyboardInterrupt)" if base else "an Exception subclass",
                       "raw_user_call_index_that_raises_once": r,
@@ -725,15 +783,26 @@ def max_diff(a, b):
     return max(dm, df)
 
 
-def oracle_split(res, api, s_l, d_l, ms, variant=0):
+def oracle_split(res, api, s_l, d_l, ms, variant=0, read_between=False, progress="silent"):
+    """a split computation (optionally with the results read between the calls, as a user
+    does) must hand out the same times/states/fields as one call"""
     s, d = float(s_l), float(d_l)
     targets = [dec_sum(s_l, d_l, m) for m in ms]
-    rec = run_history(api, s, d, [("c", t) for t in targets], None, variant)
+    ops = []
+    for t in targets:
+        ops.append(("c", t))
+        if read_between:
+            ops.append(("g",))
+    rec = run_history(api, s, d, ops, None, variant, False, progress)
     ref = single_call(api, s, d, max(targets), variant)
     if rec["oks"] != "1" * len(ms) or not same_dynamics(rec["dyn"], ref["dyn"]):
         name = {"tempo": "Tempo", "mft": "MeanFieldTempo"}[api]
-        res.fail("split:%s targets=%s" % (name, ms),
+        res.fail("split%s:%s targets=%s" % ("-read-between" if read_between else "", name, ms),
                  {"api": name, "start_time": s, "dt": d, "targets": targets,
+                  "target_steps": ms, "variant": variant, "progress_type": progress,
+                  "results_read_between_calls": read_between,
+                  "number_of_states_handed_out": len(rec["dyn"]["states"]),
+                  "number_of_times_handed_out": len(rec["dyn"]["times"]),
                   "times_history": rec["dyn"]["times"], "times_single": ref["dyn"]["times"],
                   "max_state_difference": max_diff(rec["dyn"], ref["dyn"])})
 
@@ -824,8 +893,10 @@ def search(res, rng=None):
             oracle_gibbs(res, n, k)
     # splitting
     for api in ("tempo", "mft"):
-        for ms in ([2, 4], [4, 2], [1, 1, 3], [3, 0, 4, 2], [5, 1]):
-            oracle_split(res, api, "0.0", "0.1", ms)
+        for k, ms in enumerate(([2, 4], [4, 2], [1, 1, 3], [3, 0, 4, 2], [5, 1])):
+            oracle_split(res, api, "0.0", "0.1", ms, progress=PROGRESS_TYPES[k % 3])
+            oracle_split(res, api, "0.0", "0.1", ms, read_between=True,
+                         progress=PROGRESS_TYPES[(k + 1) % 3])
     for (pre, post, ts) in [((1,), (2,), [2, 1, 4]), ((0,), (0,), [3, 3]), ((), (), [1, 2, 3])]:
         a, b = run_tebd(pre, post, ts), run_tebd(pre, post, [max(ts)])
         if not same_tebd(a["res"], b["res"], tol=1e-8):
@@ -839,13 +910,30 @@ def replay_case(res, payload):
     """re-run one stored failing input (corpus / --replay) against the real code"""
     fi = payload.get("failing_input", payload)
     key = payload.get("key", "")
+    if key.startswith("fault-swallowed:"):
+        api = "tempo" if fi["api"] == "Tempo" else "mft"
+        rec = run_history(api, fi["start_time"], fi["dt"], [("c", fi["end_time"])],
+                          fi["raw_user_call_index_that_raises_once"], fi.get("variant", 0),
+                          fi.get("base_exception", False), fi["progress_type"])
+        if rec["fired_inv"] is not None and rec["oks"] == "1":
+            res.fail(key, fi)
+            return True
+        return False
+    if key.startswith("split"):
+        api = "tempo" if fi["api"] == "Tempo" else "mft"
+        n0 = len(res.failing)
+        # grid of the stored case: literal targets of start 0.0 / dt 0.1
+        oracle_split(res, api, repr(fi["start_time"]), repr(fi["dt"]), fi["target_steps"],
+                     fi.get("variant", 0), fi.get("results_read_between_calls", False),
+                     fi.get("progress_type", "silent"))
+        return len(res.failing) > n0
     if key.startswith("retry:"):
         api = "tempo" if fi["api"] == "Tempo" else "mft"
         s, d, target = fi["start_time"], fi["dt"], fi["end_time"]
         r = fi["raw_user_call_index_that_raises_once"]
         ref = single_call(api, s, d, target, fi.get("variant", 0))
         rec = run_history(api, s, d, [("c", target), ("c", target)], r, fi.get("variant", 0),
-                          ":BaseException" in key)
+                          ":BaseException" in key, fi.get("progress_type", "silent"))
         if rec["oks"][:1] == "0" and rec["oks"][1:] != "0" and not (
                 rec["oks"][1:] == "1" and same_dynamics(rec["dyn"], ref["dyn"])):
             res.fail(key, fi)
@@ -874,7 +962,9 @@ def run(tier, seed, replay):
         "with add_correlation_time / no cut-off, time-dependent "
         "Hamiltonian/rates/field equation wrapped by counters): every target sequence over a "
         "4-step grid up to length 2 (quick) / 3 (thorough), sampled longer ones, targets as "
-        "literals / computed / off-grid / before start, interleaved get_dynamics; a transient "
+        "literals / computed / off-grid / before start, interleaved get_dynamics with every public "
+        "read of the results (.states/.times/.fields/expectations) between the calls, all three "
+        "progress types in rotation; a transient "
         "fault at EVERY raw call index of the user callables with three retry shapes, raised as "
         "an Exception subclass and as a BaseException subclass that is not an Exception; PtTempo "
         "every compute/get history up to length 3 + sampled; GibbsTempo 1-3 computes; PtTebd "
